@@ -483,7 +483,12 @@ func master(h Harness, jobs []Job, tr string, budget int) {
 	next := 0
 	skipped := 0
 	var infra, notes []string
+	// the watchdog is for workers that hang: a job stops exploring at the deadline by itself, so the
+	// watchdog must never fire before the deadline has passed
 	jobTimeout := 1800 * time.Second
+	if d := time.Duration(budget)*time.Second + 300*time.Second; d > jobTimeout {
+		jobTimeout = d
+	}
 	take := func() int {
 		mu.Lock()
 		defer mu.Unlock()
